@@ -128,6 +128,7 @@ func tcw(runs, chunk, budget, perRun int) tierCfg {
 var props = map[string]propCfg{
 	"C03": {Quick: tc(2000, 100, 45), Thorough: tc(150000, 250, 900)},
 	"C18": {Quick: tcw(30000, 500, 45, 6), Thorough: tcw(400000, 500, 900, 6)},
+	"C04": {Quick: tc(2500, 100, 60), Thorough: tc(150000, 200, 900), Race: true},
 	"C05": {Quick: tc(5000, 200, 45), Thorough: tc(300000, 500, 900)},
 	"C06": {Quick: tc(5000, 200, 45), Thorough: tc(300000, 500, 900)},
 	"C07": {Quick: tc(6000, 200, 45), Thorough: tc(300000, 500, 900)},
